@@ -17,7 +17,7 @@ RULE = ("hyp: entry point (the 4 SequenceParameters show_/save_ phase/Uversky me
         "functions) x arguments (1-5 sequences or coordinate pairs, label(s) given or omitted, title given or default, xLim/yLim in (0,1], "
         "legend on/off, font size, getFig, saveFormat in {png, pdf, svg}); linear-profile plots show_linear{NCPR,FCR,Sigma,Hydropathy}(w, "
         "getFig=True) and save_linear* for generated (sequence, w). enum: region agreement for every (n+, n-, N) with N<=60 (quick) / N<=120 "
-        "(thorough) against the five polygons taken from the drawn figure, plus every composition within two residues of a threshold for N up to 400 (quick) / 1000 (thorough); linear plots also for sequences of 200-300 residues (219/220/221/260 always). Oracle on the captured figure (returned object, or snapshot at "
+        "(thorough) against the five polygons taken from the drawn figure, plus every composition within two residues of a threshold for N up to 400 (quick) / 1000 (thorough); linear plots also for sequences of 200-300 residues (219/220/221/260 always). A quarter of the diagram cases are made right after a library save_* call of another sequence (svg/pdf/png) with nothing closed by the caller in between; labels may be 70-130 characters long; homopolymers put markers in the corners. Oracle on the captured figure (returned object, or snapshot at "
         "savefig/show): one marker per sequence at (f+, f-) resp. (mean net charge, Uversky hydropathy) of the object's own getters; title, "
         "axis limits and label texts as requested; getFig=True returns a non-None object exposing the figure; a save writes a non-empty "
         "file; the marker lies in the closed polygon (1e-9) whose index equals get_phasePlotRegion(); linear plots have exactly N bars, bar "
@@ -83,6 +83,25 @@ def recording():
     plt.savefig, plt.show = savefig, show
     try:
         yield snaps
+    finally:
+        plt.savefig, plt.show = osave, oshow
+        plt.close("all")
+
+
+def capture_keep(fn, getfig):
+    """Like capture() but WITHOUT closing open figures first (whatever an earlier library call left open stays)."""
+    import matplotlib.pyplot as plt
+    snaps = []
+    osave, oshow = plt.savefig, plt.show
+    plt.savefig = lambda *a, **k: (snaps.append(("savefig", snapshot(plt.gcf()))), osave(*a, **k))[1]
+    plt.show = lambda *a, **k: snaps.append(("show", snapshot(plt.gcf())))
+    try:
+        res = fn()
+        if getfig:
+            ok = res is not None and (hasattr(res, "savefig") or hasattr(res, "gcf"))
+            fig = res.gcf() if hasattr(res, "gcf") else res
+            return ok, snapshot(fig) if ok else None, res
+        return True, (snaps[-1][1] if snaps else None), res
     finally:
         plt.savefig, plt.show = osave, oshow
         plt.close("all")
@@ -182,7 +201,26 @@ def check_diagram(ctx, case):
     call, points = build_call(case, objs, path)
     what = "%s_%s (%s)" % (case["how"], case["entry"], case["kind"])
     getfig = case["how"] == "show" and case.get("getFig", False)
-    ok, snap, res = capture(call, getfig)
+    pre = case.get("after_save")
+    if pre:
+        # an earlier save of ANOTHER sequence through the library (which closes its own figure); nothing is closed by the caller in between
+        other = util.sp(pre["seq"])
+        p2 = os.path.join(tmpdir(), "pre.%s" % pre["fmt"])
+        import matplotlib.pyplot as plt
+        plt.close("all")
+        try:
+            if pre["which"] == "phase":
+                other.save_phaseDiagramPlot(p2, saveFormat=pre["fmt"])
+            elif pre["which"] == "uversky":
+                other.save_uverskyPlot(p2, saveFormat=pre["fmt"])
+            else:
+                other.save_linearNCPR(p2, 5, pre["fmt"])
+        except Exception:   # noqa
+            pass
+        ok, snap, res = capture_keep(call, getfig)
+        what += " after save_%s(%s)" % (pre["which"], pre["fmt"])
+    else:
+        ok, snap, res = capture(call, getfig)
     if getfig:
         ctx.check(ok, "getFig-none", "%s with getFig=True returned %r instead of the figure" % (what, res), case)
     ctx.check(snap is not None, "no-figure", "%s never reached savefig/show" % what, case)
@@ -272,7 +310,8 @@ def region_cases(tier, seed):
             yield {"what": "region", "comp": c["comp"], "seq": c["seqs"][0]}
 
 
-LABEL = st.text(alphabet="abcXYZ 123_-", min_size=1, max_size=8)
+LABEL = st.one_of(st.text(alphabet="abcXYZ 123_-", min_size=1, max_size=8), st.text(alphabet="abcXYZ 123_-", min_size=1, max_size=8),
+                  st.text(alphabet="abcdefgh|_ 0123456789", min_size=70, max_size=130))
 LIM = st.one_of(st.just(1), st.just(1.0), st.floats(0.05, 1.0).map(lambda v: round(v, 3)))
 
 
@@ -304,6 +343,11 @@ def hyp_case(draw):
         case["legendOn"] = draw(st.booleans())
     if draw(st.integers(0, 3)) == 0:
         case["fontSize"] = draw(st.integers(6, 16))
+    if draw(st.integers(0, 3)) == 0:
+        case["after_save"] = {"seq": draw(gens.sequences(max_len=30, min_len=6)), "fmt": draw(st.sampled_from(["svg", "svg", "pdf", "png"])),
+                              "which": draw(st.sampled_from(["phase", "uversky", "linear"]))}
+    if draw(st.integers(0, 7)) == 0 and n == 1:
+        case["seqs"] = [draw(st.sampled_from(["K", "R", "KR", "D", "E"])) * draw(st.integers(5, 30))]     # a corner of the diagram
     return case
 
 
